@@ -527,6 +527,22 @@ class SV(object):
         ENG.add_axiom(T.and_(T.le(T.const(0), r), T.eq(T.mul(r, r), t)))
         return SV(r)
 
+    def trunc(self):
+        """C cast float -> integer: rounding towards zero (an integer-sorted application with its defining axiom)"""
+        if self.t.sort == T.Z:
+            return self
+        t = self.t
+        if t.op == 'const':
+            import math
+            return SV(T.iconst(math.trunc(t.val)))
+        r = T.app('trunc', (t,), T.Z)
+        rr = T.to_real(r)
+        one = T.const(1)
+        nonneg = T.le(T.const(0), t)
+        ENG.add_axiom(T.and_(T.or_(T.not_(nonneg), T.and_(T.le(rr, t), T.lt(t, T.add(rr, one)))),
+                             T.or_(nonneg, T.and_(T.lt(T.sub(rr, one), t), T.le(t, rr)))))
+        return SV(r)
+
     def _trig(self):
         t = T.to_real(self.t)
         c, s = T.app('cos', (t,)), T.app('sin', (t,))
